@@ -31,18 +31,21 @@ def main():
         want = set(a.props.upper().split(","))
         q = [j for j in q if j[1] in want]
     res = []; lock = threading.Lock()
-    def work():
+    def work(wid):
+        env = dict(os.environ, VERIF_TARGET_DIR="/tmp/regress_target_%d" % wid)
         while True:
             with lock:
                 if not q: return
                 f, pid, want = q.pop(0)
-            p = subprocess.run([os.path.join(V, "dev/mutant.sh"), f, pid], stdout=subprocess.PIPE, stderr=subprocess.STDOUT, text=True)
+            p = subprocess.run([os.path.join(V, "dev/mutant.sh"), f, pid], stdout=subprocess.PIPE, stderr=subprocess.STDOUT, text=True, env=env)
             ok = p.returncode == want
             with lock:
                 res.append((ok, f, pid, want, p.returncode))
                 print("%s %-60s %s want rc=%d got rc=%d" % ("ok  " if ok else "FAIL", os.path.relpath(f, V), pid, want, p.returncode), flush=True)
-    ts = [threading.Thread(target=work) for _ in range(a.workers)]
+    ts = [threading.Thread(target=work, args=(i,)) for i in range(a.workers)]
     [t.start() for t in ts]; [t.join() for t in ts]
+    import shutil
+    for i in range(a.workers): shutil.rmtree("/tmp/regress_target_%d" % i, ignore_errors=True)
     bad = [r for r in res if not r[0]]
     print("REGRESS: %d runs, %d unexpected" % (len(res), len(bad)))
     for r in bad: print("  UNEXPECTED", os.path.relpath(r[1], V), r[2], "want", r[3], "got", r[4])
